@@ -1,0 +1,31 @@
+//go:build verif
+
+package remote
+
+import (
+	"context"
+
+	"github.com/foxcpp/go-mtasts"
+	"github.com/foxcpp/maddy/framework/module"
+)
+
+// VerifMTASTSCache returns the policy cache behind an initialised
+// mx_auth.mtasts policy (nil if p is not one), so that a harness can replace
+// its resolver and observe its store.
+func VerifMTASTSCache(p module.MXAuthPolicy) *mtasts.Cache {
+	m, ok := p.(*mtastsPolicy)
+	if !ok {
+		return nil
+	}
+	return m.cache
+}
+
+// VerifMTASTSGet returns the function deliveries of p use to obtain the
+// MTA-STS policy of a recipient domain (mtastsPolicy.mtastsGet).
+func VerifMTASTSGet(p module.MXAuthPolicy) func(context.Context, string) (*mtasts.Policy, error) {
+	m, ok := p.(*mtastsPolicy)
+	if !ok {
+		return nil
+	}
+	return m.mtastsGet
+}
